@@ -224,8 +224,8 @@ theorem goodMand (F : Facts15) [DeepCopy F] (hF : F.mandRule = .copies) (fuel : 
         · exact Good.fail _
 
 theorem good_subclassOp (F : Facts15) (base : Option Nat) (name : String) (ns : Option String)
-    (fields : List (String × Nat)) (perm : List Nat) :
-    Good n na T (subclassOp F base name ns fields perm) (Fresh n) := by
+    (fields : List (String × Nat)) (perm : List Nat) (attrs : Option Kw) :
+    Good n na T (subclassOp F base name ns fields perm attrs) (Fresh n) := by
   unfold subclassOp
   refine Good.bind (Good.getCls _) (fun bc _ => ?_)
   refine Good.bind (Good.liftExcept _) (fun ext _ => ?_)
